@@ -60,5 +60,9 @@ for k in sorted(allc):
         "what": f"{k}{desc}: result differs from the mathematical definition ({kinds}; operand layouts {lays}; build {'NDEBUG' if c['harness_name'].endswith('_nd') else 'assertions on'})",
         "witness": {"kind": "program", "harness": "blas.cpp", "harness_name": c["harness_name"], "mode": "mix", "program": [x for x in c["program"] if x], "observed": [x for x in c["answers"] if x][-6:]},
     })
-json.dump({"findings": findings}, open(os.path.join(HERE, "findings", "C13.json"), "w"), indent=1)
-print(len(findings), "findings written")
+# entries already recorded as fixed are history: they are kept (the ordinals in their keys are those of the table before the fix)
+FP = os.path.join(HERE, "findings", "C13.json")
+fixed = [f for f in json.load(open(FP)).get("findings", []) if f.get("status") == "fixed"] if os.path.exists(FP) else []
+fixed_keys = {f["key"] for f in fixed}
+json.dump({"findings": fixed + [f for f in findings if f["key"] not in fixed_keys]}, open(FP, "w"), indent=1, ensure_ascii=False)
+print(len(findings), "open findings written,", len(fixed), "fixed entries kept")
